@@ -207,6 +207,8 @@ def parse_rvalue(s):
         rest = s[5:]
         mut = rest.startswith('mut ')
         rest = rest[4:] if mut else rest[6:]  # 'const '
+        if rest.startswith('(fake) '):
+            rest = rest[7:]                   # fake raw borrow emitted for slice-pattern / index bounds checks
         return ('ref', mut, parse_place(rest))
     if s.startswith('&'):
         rest = s[1:]
